@@ -210,7 +210,9 @@ LayersPatch(d1) == IF Has(d1, "layers")
                    ELSE {<<>>} \cup {<< <<"layers", L(x)>> >> : x \in Extras}              \* a new object list
 \* "zz" is a key d1 does not have at first; in history mode it may exist: then only patches of its own shape
 ZPatch(d1)      == IF ~Has(d1, "zz")
-                   THEN Opt("zz", {S(1), D(<< <<"name", S(1)>> >>), L(<<D(<< <<"name", S(1)>> >>)>>), L(<<NewA, NewB>>), L(<<N(1)>>)})
+                   THEN Opt("zz", {S(1), D(<< <<"name", S(1)>> >>), L(<<D(<< <<"name", S(1)>> >>)>>), L(<<NewA, NewB>>), L(<<N(1)>>),
+                                   \* a new object that itself holds an object and a list of objects
+                                   D(<< <<"name", S(1)>>, <<"sub", D(<< <<"x", N(0)>> >>)>>, <<"objs", L(<<NewA, NewB>>)>> >>)})
                    ELSE LET z == Lookup(d1, "zz") IN
                         {<<>>, << <<"zz", Del>> >>} \cup
                         {<< <<"zz", v>> >> : v \in
@@ -228,7 +230,21 @@ Patches(d1) ==
     LET fwd == Combine(<<NamePatch(d1), SubPatch(d1), LayersPatch(d1), ZPatch(d1)>>, MaxMention) \ {<<>>}
     IN  IF Big THEN fwd \cup {Reverse(p) : p \in fwd} ELSE fwd
 
-UpdateCase(d1, d2, ow) == [kind |-> "update", d1 |-> D(d1), d2 |-> D(d2), ow |-> ow, res |-> D(Upd(d1, d2, ow))]
+\* A patch that brings a NEW key holding an object (or a list of objects) is followed by a second patch that
+\* speaks about that very object: the second call may change its d1 only - in particular not the first
+\* patch, which is no argument of the second call (the result must not share objects with the patch).
+NewObjectKeys(d1, d2) == SelectSeq(KeysOf(d2), LAMBDA k : k \notin KeySet(d1) /\
+                                       (Lookup(d2, k).t = "dict" \/ (IsObjList(Lookup(d2, k)) /\ Lookup(d2, k).elems # <<>>)))
+FollowUp(d1, d2) ==
+    IF NewObjectKeys(d1, d2) = <<>> THEN <<>>
+    ELSE LET k == Head(NewObjectKeys(d1, d2))
+             p == D(<< <<"fz", S(2)>> >>)
+         IN  << <<k, IF Lookup(d2, k).t = "dict" THEN p ELSE L(<<p>>)>> >>
+UpdateCase(d1, d2, ow) ==
+    LET res == Upd(d1, d2, ow)
+        fu  == FollowUp(d1, d2)
+    IN  [kind |-> "update", d1 |-> D(d1), d2 |-> D(d2), ow |-> ow, res |-> D(res),
+         then |-> IF fu = <<>> THEN [t |-> "none"] ELSE [t |-> "update", d2 |-> D(fu), res |-> D(Upd(res, fu, TRUE))]]
 
 \* every path into a value
 RECURSIVE Paths(_)
@@ -298,7 +314,9 @@ HNext == /\ Len(hist) < MaxHist
 
 -----------------------------------------------------------------------------
 (* (M) laws, (G) emission                                                  *)
-UpdateLaws == case.kind = "update" => Laws(case.d1.items, case.d2.items, case.res.items, case.ow)
+UpdateLaws == case.kind = "update" =>
+                  /\ Laws(case.d1.items, case.d2.items, case.res.items, case.ow)
+                  /\ (case.then.t = "update" => Laws(case.res.items, case.then.d2.items, case.then.res.items, TRUE))
 
 FindLaws ==
     /\ case.kind \in {"find", "findall"} =>
